@@ -371,6 +371,19 @@ def contentSecurity (C : BlockCipher) (env : CsEnv) (cfg : CsCfg) (req : CsReq) 
       else plainNext inner req.body
   else plainNext inner req.body
 
+/-- the two checks of the gate failed (for a method it looks at): the header does not parse or the signature does not verify -/
+def csVerificationFails (env : CsEnv) (cfg : CsCfg) (req : CsReq) : Bool :=
+  gatedMethods.contains req.method &&
+    (match parseContentSecurity env req with
+     | .error _ => true
+     | .ok h => verifySignature env cfg.tol req h != 0)
+
+/-- `LimitContentSecurityHandler(limit, decrypters, tolerance, strict, callbacks...)` with USER callbacks that answer the
+request themselves (`st` = the status they leave: 200 when they write nothing): the default `handleVerificationFailure` is
+NOT installed, so a failed verification ends with the callbacks — strict or not — and the handler is not called -/
+def contentSecurityWithCallbacks (C : BlockCipher) (env : CsEnv) (cfg : CsCfg) (req : CsReq) (inner : Inner) (st : Nat) : Resp :=
+  if csVerificationFails env cfg req then { ran := false, status := st } else contentSecurity C env cfg req inner
+
 /-! ## JWT -/
 
 /-- what `doParseToken` returned -/
